@@ -152,6 +152,17 @@ def instances(tier):
                         add(sp, 0, r, r2)
         add(spec('curve', (p,), ((1,),), rational=True), 0, 1, 1, via='method')
     add(spec('curve', (2,), ((1,),), rational=False, lo=2, hi=5), 0, 2, 2)
+    add(spec('curve', (2,), ((1,),), rational=True, lo=-1, hi=1), 0, 1, 1)
+    add(spec('curve', (3,), ((),), rational=False, lo=-2, hi=3), 0, 2, 2, via='method')
+    sp0 = spec('surface', (2, 1), ((1,), (1,)), rational=False, doms=[(-1, 1), (-2, 3)])
+    for d in (0, 1):
+        add(sp0, d, 1, 1, timeout=1200)
+        add(sp0, d, 1, 1, via='method', timeout=1200)
+    spv = spec('volume', (1, 1, 2), ((), (1,), ()), rational=False, doms=[(-1, 1), (-1, 2), (-3, 1)])
+    for d in range(3):
+        add(spv, d, 1, 1, timeout=1800)
+    add(spec('volume', (4, 1, 1), ((), (), ()), rational=False), 0, 1, 1, timeout=1800)
+    add(spec('volume', (1, 1, 4), ((), (), (1,)), rational=False), 2, 2, 2, timeout=1800)
     surf = [((1, 2), ((1,), ())), ((2, 1), ((), (1,))), ((2, 2), ((1,), (1,)))]
     if not quick:
         surf += [((3, 2), ((1,), ())), ((2, 3), ((), (1,))), ((3, 3), ((1,), (1,)))]
